@@ -265,7 +265,7 @@ func TestC19_S1SaveLoad(t *testing.T) {
 		Rule: "a source cache built by a generated script over any layout is saved with SaveCacheTo; the clock is moved by a generated offset (0, sub-TTL, exactly a saved deadline, beyond deadlines) and the stream is loaded into a fresh cache of the same configuration or a smaller/larger maximum; " +
 			"loaded keys must be a subset of the source entries live at load time with equal value and ExpiresAtNano, RefreshableAtNano equal when in the future else due; everything loaded when the live weight fits, otherwise the target stays within its bound; " +
 			"non-trivial = >=1 entry expired between save and load and >=1 survivor with a finite deadline, or a bounded target smaller than the saved weight",
-		Profile: &vh.Profile{Name: "c19", ExtremeDur: true, Executors: []int{vh.ExecInline}, MinLen: 2, MaxLen: 40, MaxKeys: 8,
+		Profile: &vh.Profile{Name: "c19", ExtremeDur: true, BigWeights: true, Executors: []int{vh.ExecInline}, MinLen: 2, MaxLen: 40, MaxKeys: 8,
 			Ops: with(vh.BaseOps(), "saveload", 8, "set", 24, "advance", 10, "advanceto", 3, "get", 3, "bulkget", 1, "refresh", 1, "bulkrefresh", 1, "invalidateall", 0)},
 		Facets: vh.FRet | vh.FVis | vh.FPanic,
 		NonTrivial: func(r *vh.Runner) bool {
